@@ -84,7 +84,22 @@ func RunTrial(p *sut.Proc, t Trial) (out *Outcome) {
 	must(err)
 	var e1id, e2id uint32
 	ctx := Ctx{TypeID: typ, Foreign: w1e}
-	if t.Phase == "joined" {
+	var host *scen.C // "switched": a member of the session the offender comes from
+	if t.Phase == "switched" {
+		// the offender was a member of another session before (which stays
+		// alive through `host`) and switched to the witness's session
+		host = scen.MustDial(p, "vod")
+		defer host.Close()
+		_, _, err = host.Join("")
+		must(err)
+		_, _, err = o.Join(host.SID)
+		must(err)
+		_, err = o.AddEntity(false, 7)
+		must(err)
+		_, err = host.Barrier()
+		must(err)
+	}
+	if t.Phase == "joined" || t.Phase == "switched" {
 		_, _, err = o.Join(w1.SID)
 		must(err)
 		e1id, err = o.AddEntity(false, 2)
@@ -122,8 +137,15 @@ func RunTrial(p *sut.Proc, t Trial) (out *Outcome) {
 			}
 		}
 	}
+	switch t.Off.CloseAfter {
+	case "fin":
+		o.Close()
+	case "rst":
+		o.Abort()
+	}
+	joined := t.Phase == "joined" || t.Phase == "switched"
 	// deferred updates wait for a frame tick
-	if t.Phase == "joined" && p.Alive() {
+	if joined && p.Alive() {
 		p.WaitTicks(w1.SID, 3, 3*time.Second)
 	}
 	// --- fate of the offender
@@ -180,7 +202,7 @@ func RunTrial(p *sut.Proc, t Trial) (out *Outcome) {
 		out.Findings = append(out.Findings, finding(t, "witness/same-session-stalled", "the witness in the offender's session got no pong: %v", err))
 		return
 	}
-	if t.Phase == "joined" {
+	if joined {
 		leaves, delE1, delE2 := 0, 0, 0
 		for _, e := range win {
 			switch m := e.M.(type) {
@@ -269,11 +291,32 @@ func RunTrial(p *sut.Proc, t Trial) (out *Outcome) {
 	}
 	out.Oracles++
 
+	// the offender leaves for good; the session it came from must not notice
+	if host != nil {
+		o.Close()
+		if ok, _ := scen.Departed(p, o, 8*time.Second); !ok {
+			out.Findings = append(out.Findings, wedgeFinding(p, t, "the offender's handler never returned after it closed"))
+			return
+		}
+		p.WaitTicks(host.SID, 3, 3*time.Second)
+		if !p.Alive() {
+			out.Findings = append(out.Findings, finding(t, "process/exited", "the server process ended after the offender (which had switched sessions) disconnected: %s\n%s", p.ExitInfo(), p.CrashHead(5000)))
+			return
+		}
+		if id, err := host.AddEntity(false, 8); err != nil || id == 0 {
+			out.Findings = append(out.Findings, finding(t, "witness/other-session-affected", "a member of the session the offender had left earlier could not add an entity afterwards (id=%d err=%v)", id, err))
+		}
+		out.Oracles++
+	}
 	// cleanup; departures must complete so that the next trial starts clean
-	for _, c := range []*scen.C{o, w1, w2} {
+	all := []*scen.C{o, w1, w2}
+	if host != nil {
+		all = append(all, host)
+	}
+	for _, c := range all {
 		c.Close()
 	}
-	for _, c := range []*scen.C{o, w1, w2} {
+	for _, c := range all {
 		if ok, _ := scen.Departed(p, c, 8*time.Second); !ok {
 			out.Findings = append(out.Findings, wedgeFinding(p, t, "a connection closed during cleanup never left websocket.Handle"))
 			return
